@@ -459,6 +459,17 @@ func runSeq(proto string, conns []int, script func(deliver func(s side, data []b
 func concMode(args []string) {
 	proto := args[0]
 	maxRuns, _ := strconv.Atoi(args[1])
+	var onePrefix []string
+	single := false
+	if strings.HasPrefix(args[1], "prefix=") {
+		// replay of one schedule: the worker names in order
+		single = true
+		for _, x := range strings.Split(strings.TrimPrefix(args[1], "prefix="), ",") {
+			if x != "" {
+				onePrefix = append(onePrefix, x)
+			}
+		}
+	}
 	type thr struct {
 		s    side
 		pids []int
@@ -495,7 +506,7 @@ func concMode(args []string) {
 		Res   *result      `json:"res,omitempty"`
 		Err   string       `json:"err,omitempty"`
 	}
-	runs, complete := sched.Explore(names, func() (map[string]func(), func() string) {
+	mkWorld := func() (map[string]func(), func() string) {
 		wd := newWorld(proto, conns)
 		bodies := map[string]func(){}
 		var mu sync.Mutex
@@ -534,7 +545,8 @@ func concMode(args []string) {
 			b, _ := json.Marshal(res)
 			return string(b)
 		}
-	}, 100000, maxRuns, func(steps []sched.Step, obs string, err error) bool {
+	}
+	visit := func(steps []sched.Step, obs string, err error) bool {
 		o := outT{Steps: steps}
 		if err != nil {
 			o.Err = err.Error()
@@ -545,7 +557,18 @@ func concMode(args []string) {
 		}
 		enc.Encode(o)
 		return true
-	})
+	}
+	if single {
+		bodies, observe := mkWorld()
+		steps, err := sched.Exec(names, bodies, onePrefix, 100000)
+		obs := ""
+		if err == nil {
+			obs = observe()
+		}
+		visit(steps, obs, err)
+		return
+	}
+	runs, complete := sched.Explore(names, mkWorld, 100000, maxRuns, visit)
 	fmt.Fprintf(w, "{\"runs\":%d,\"complete\":%v}\n", runs, complete)
 }
 
